@@ -228,6 +228,11 @@ def histories(ctx):
     hs.append(("code-refusals", h.reqs))
     # the other grants
     h = Hist(ctx)
+    h.do({"kind": "jwt_bearer", "user": "alice"})
+    h.do({"kind": "jwt_bearer", "user": None})
+    h.do({"kind": "jwt_bearer", "user": "alice", "flag": True})
+    h.do({"kind": "jwt_bearer", "user": "alice", "client": "c2"})
+    h.do({"kind": "jwt_bearer", "user": "alice", "client": "nobody"})
     p = h.do({"kind": "password", "user": "alice"})
     h.do({"kind": "password", "user": "alice", "flag": True})
     h.do({"kind": "client_credentials"})
